@@ -44,3 +44,86 @@ package genql
 //@   ensures options[C08]: result.options == query.options
 //@   ensures fresh[C08,C13]: fresh(result) && result != nil
 //@   modifies nothing
+
+// ---------------------------------------------------------------------------
+// heplers.go, functions.go: helpers and built-in functions
+
+//@ func AsType[*]
+//@   safety[C18]
+//@   ensures nil[C18]: value == nil ==> result == nil && err == nil
+//@   ensures val[C18]: value != nil && typeis(value, T) ==> err == nil && result != nil && fresh(result) && *result == value.(T)
+//@   ensures ptr[C18]: typeis(value, *T) && !typeis(value, T) ==> err == nil && result == value.(*T)
+//@   ensures bad[C18]: value != nil && !typeis(value, T) && !typeis(value, *T) ==> err != nil
+//@   modifies nothing
+
+//@ func Guard
+//@   safety[C18]
+//@   ensures arity[C18]: (result == nil) == (len(args) == n)
+//@   modifies nothing
+
+//@ func FirstFunc
+//@   safety[C18]
+//@   errors[C18]
+//@   ensures arity[C18]: len(args) != 1 ==> err != nil
+//@   ensures null[C18]: len(args) == 1 && args[0] == nil ==> result == nil && err == nil
+//@   ensures empty[C18]: len(args) == 1 && typeis(args[0], []any) && len(args[0].([]any)) == 0 ==> result == nil && err == nil
+//@   ensures element[C18]: len(args) == 1 && typeis(args[0], []any) && len(args[0].([]any)) > 0 ==> err == nil && result == args[0].([]any)[0]
+//@   modifies nothing
+
+//@ func LastFunc
+//@   safety[C18]
+//@   errors[C18]
+//@   ensures arity[C18]: len(args) != 1 ==> err != nil
+//@   ensures null[C18]: len(args) == 1 && args[0] == nil ==> result == nil && err == nil
+//@   ensures empty[C18]: len(args) == 1 && typeis(args[0], []any) && len(args[0].([]any)) == 0 ==> result == nil && err == nil
+//@   ensures element[C18]: len(args) == 1 && typeis(args[0], []any) && len(args[0].([]any)) > 0 ==> err == nil && result == args[0].([]any)[len(args[0].([]any))-1]
+//@   modifies nothing
+
+//@ func ElementAtFunc
+//@   safety[C18]
+//@   errors[C18]
+//@   ensures arity[C18]: len(args) != 2 ==> err != nil
+//@   ensures null[C18]: len(args) == 2 && args[0] == nil ==> result == nil && err == nil
+//@   ensures element[C18]: len(args) == 2 && typeis(args[0], []any) && typeis(args[1], float64) && 0 <= int(args[1].(float64)) && int(args[1].(float64)) < len(args[0].([]any)) &&
+//@     | args[1].(float64) >= -9.0e18 && args[1].(float64) <= 9.0e18 ==> err == nil && result == args[0].([]any)[int(args[1].(float64))]
+//@   ensures out-of-range[C18]: len(args) == 2 && typeis(args[0], []any) && typeis(args[1], float64) && args[1].(float64) >= -9.0e18 && args[1].(float64) <= 9.0e18 &&
+//@     | (int(args[1].(float64)) < 0 || int(args[1].(float64)) >= len(args[0].([]any))) ==> err != nil && result == nil
+//@   modifies nothing
+
+//@ func ArrayFunc
+//@   safety[C18]
+//@   ensures same[C18]: err == nil && result == any(args)
+//@   modifies nothing
+
+//@ func IfFunc
+//@   safety[C18]
+//@   errors[C18]
+//@   ensures arity[C18]: len(args) != 3 ==> err != nil
+//@   ensures then[C18]: len(args) == 3 && typeis(args[0], bool) && args[0].(bool) ==> err == nil && result == args[1]
+//@   ensures else[C18]: len(args) == 3 && typeis(args[0], bool) && !args[0].(bool) ==> err == nil && result == args[2]
+//@   ensures null-condition[C18]: len(args) == 3 && args[0] == nil ==> err == nil && result == args[2]
+//@   modifies nothing
+
+//@ func ConcatFunc
+//@   safety[C18]
+//@   loop 0 invariant text[C18]: buf(&buffer) == spec.ConcatText(elems(args), off(args), rangeindex + 1)
+//@   ensures text[C18]: err == nil && result == any(spec.ConcatText(elems(args), off(args), len(args)))
+
+//@ func ToLowerFunc
+//@   safety[C18]
+//@   errors[C18]
+//@   ensures arity[C18]: len(args) != 1 ==> err != nil
+//@   ensures lower[C18]: len(args) == 1 && typeis(args[0], string) ==> err == nil && result == any(spec.ToLower(args[0].(string)))
+
+//@ func ToUpperFunc
+//@   safety[C18]
+//@   errors[C18]
+//@   ensures arity[C18]: len(args) != 1 ==> err != nil
+//@   ensures upper[C18]: len(args) == 1 && typeis(args[0], string) ==> err == nil && result == any(spec.ToUpper(args[0].(string)))
+
+//@ func DateRangeFunc
+//@   safety[C18]
+//@   errors[C18]
+//@   ensures arity[C18]: len(args) != 2 ==> err != nil
+//@   ensures pair[C18]: len(args) == 2 && args[0] != nil && args[1] != nil ==> err == nil && typeis(result, []string) &&
+//@     | len(result.([]string)) == 2 && result.([]string)[0] == spec.FmtV(args[0]) && result.([]string)[1] == spec.FmtV(args[1])
